@@ -181,6 +181,12 @@ def validate(tables, traces, flags, invs, workdir, trunc_every=10, name="TraceRu
     return fails, viols, time.time() - t0, total
 
 
+# the fields of a trace line that spec/TraceStore.tla reads (the rest, raw rows
+# with JSON nulls among them, stays on the Python side)
+TLA_KEYS = {"a", "t", "scn", "p", "idx", "data", "off", "w", "fs", "noRaw", "sorted", "mem", "rows", "fields", "win",
+            "held", "desc", "err"}
+
+
 def validate_chunk(tables, traces, flags, invs, workdir, trunc_every, name):
     os.makedirs(workdir, exist_ok=True)
     path = os.path.join(workdir, name + ".ndjson")
@@ -190,7 +196,7 @@ def validate_chunk(tables, traces, flags, invs, workdir, trunc_every, name):
             for rec in lines:
                 if rec.get("a") in ("HarnessError", "DBPanic", "ProcessCrash"):
                     continue
-                f.write(json.dumps(rec) + "\n")
+                f.write(json.dumps({k: v for k, v in rec.items() if k in TLA_KEYS}) + "\n")
                 index.append((scn, rec))
     mod, cfg = constants_module(name, "TraceStore", tables)
     cfg = ("SPECIFICATION TraceSpec\n" + cfg + flags_cfg(flags, trunc_every) +
@@ -1176,7 +1182,7 @@ def sql_bound(b):
     return "'2020-01-01T00:00:%02dZ'" % b["v"]
 
 
-def gquery(rng, t, now, ranged=True, grouped=True):
+def gquery(rng, t, now, ranged=True, grouped=True, where=None):
     """An abstract grouped / time-ranged query of table t and its SQL."""
     dims = [g for g in t.group]
     by = "*"
@@ -1202,6 +1208,8 @@ def gquery(rng, t, now, ranged=True, grouped=True):
         sql += " ASOF " + sql_bound(as_of)
         if until["k"] != "none":
             sql += " UNTIL " + sql_bound(until)
+    if where:
+        sql += " WHERE " + QPREDS[where][0]
     gb = []
     if by == "":
         gb.append("_")
@@ -1211,7 +1219,7 @@ def gquery(rng, t, now, ranged=True, grouped=True):
         gb.append("period(%ds)" % (m * t.res))
     if gb:
         sql += " GROUP BY " + ", ".join(gb)
-    desc = {"by": by, "m": m, "asOf": as_of, "until": until}
+    desc = {"by": by, "m": m, "asOf": as_of, "until": until, "w": where or ""}
     return {"a": "GQuery", "t": t.name, "mem": rng.random() < 0.7, "sql": sql, "desc": desc, "fields": fields}
 
 
@@ -1314,11 +1322,196 @@ def check_C07(args):
         "relative and absolute bounds at tick granularity against tables of resolution 1 and 2 ticks, combined with grouping and period multiples"])
 
 
+# ---------------------------------------------------------------- C08
+
+C08_TABLES = [Table("a", fields=("f", "g"), where="all", group=("a", "b"), res=2, ret=1000),
+              Table("b", fields=("f",), where="all", group=("b",), res=2, ret=1000)]
+
+
+def rawq(sql, mem, lid):
+    return {"a": "RunSet", "set": [{"id": lid, "sql": sql, "mem": mem}], "concurrent": False, "setId": lid + "-solo"}
+
+
+def cells_of(rows, fields):
+    """Decoded cells {(key, T, field, id): count} of raw rows for decodable fields."""
+    out = {}
+    for r in rows:
+        for f in fields:
+            v = r["v"].get("_points" if f == "p" else f, 0)
+            if f == "p":
+                if v:
+                    out[(r["k"], r["p"], "p", 0)] = int(v)
+                continue
+            n, i = int(v), 0
+            while n:
+                if n & 3:
+                    out[(r["k"], r["p"], f, i)] = n & 3
+                n >>= 2
+                i += 1
+    return out
+
+
+def regroup_ok(inner, outer, by, P, fields):
+    """The outer rows are a regrouping of the inner rows (same statement as C06,
+    relative to the timestamps of the outer rows)."""
+    I, O = cells_of(inner, fields), cells_of(outer, fields)
+    for (k1, t1, f1, i1) in O:
+        for (k2, t2, f2, i2) in O:
+            if k1 == k2 and t1 < t2 and t2 - t1 < P:
+                return "outer rows of key %r closer than the period" % k1
+    for (k, T, f, i), c in O.items():
+        feed = sum(cnt for (ik, ip, iff, ii), cnt in I.items()
+                   if project_key(ik, by) == k and iff == f and (f == "p" or ii == i) and T - P < ip <= T)
+        if feed != c:
+            return "outer cell %s has %d, the inner rows in (T-P, T] give %d" % ((k, T, f, i), c, feed)
+    for (ik, ip, iff, ii), cnt in I.items():
+        if not any(k == project_key(ik, by) and f == iff and (f == "p" or i == ii) and T - P < ip <= T for (k, T, f, i) in O):
+            return "inner cell %s is in no outer row" % ((ik, ip, iff, ii),)
+    return None
+
+
+def check_C08(args):
+    pid = "C08"
+
+    def mc_jobs(quick):
+        return [dict(tables=MC_TABLES, menu=MC_MENU, max_flushes=2, max_crashes=0)]
+
+    st = {"where": 0, "having": 0, "in": 0, "from": 0, "in_skipped": 0, "nontrivial": 0}
+    laws = {}
+
+    def gen(rng, quick, work, flags):
+        for di in range(40 if quick else 600):
+            tabs = C08_TABLES
+            n = rng.randint(6, 12)
+            menu = random_menu(rng, n, ticks=(1, 10), keys=sorted(KEYS), nonnumeric=False)
+            d = Directed(tabs, menu)
+            for i in range(n):
+                d.insert_and_process()
+                if rng.random() < 0.3:
+                    d.flush(rng.choice(tabs).name)
+            sc = scenario_from_hist("%s-%d" % (pid, di), tabs, menu, d.h, probe_every=False)
+            idx = max(i for i, c in enumerate(sc["cmds"]) if c["a"] == "Settle") + 1
+            qs = []
+            ta = tabs[0]
+            law = {}
+            # WHERE: bound to the specification (KeySat)
+            for _ in range(rng.randint(3, 6)):
+                qs.append(gquery(rng, ta, 10, ranged=False, grouped=rng.random() < 0.6, where=rng.choice(sorted(QPREDS))))
+            # HAVING: rows of the HAVING-free query that satisfy the predicate
+            for hi in range(rng.randint(2, 4)):
+                by = rng.choice(["a", "b", "a, b", "_"])
+                thr = rng.choice([0, 3, 4 ** rng.randint(1, 5), 2 * 4 ** rng.randint(1, 4)])
+                hf, sel = rng.choice([("f", "f"), ("g", "f"), ("_points", "f, g"), ("f", "f, g"), ("g", "_points")])
+                op = rng.choice([">", "<", ">=", "="])
+                thr = thr if hf != "_points" else rng.choice([0, 1, 2, 3])
+                mem = rng.random() < 0.7
+                base = "SELECT %s%s FROM a GROUP BY %s, period(%ds)" % (sel, "" if hf in sel.split(", ") else ", " + hf, by, rng.choice([2, 4]))
+                withh = base.replace("SELECT %s%s" % (sel, "" if hf in sel.split(", ") else ", " + hf), "SELECT " + sel) + " HAVING %s %s %d" % (hf, op, thr)
+                lid = "h%d" % hi
+                qs += [rawq(base, mem, lid + "base"), rawq(withh, mem, lid + "with")]
+                law[lid] = {"kind": "having", "field": hf, "op": op, "thr": thr, "sel": sel.split(", ")}
+            # IN (subquery) = IN (literal list of the distinct values it returns)
+            for ii in range(rng.randint(1, 3)):
+                cond = rng.choice(["", " WHERE b = 'y'", " WHERE b <> 'y'", " HAVING f > 16"])
+                sub = "SELECT b FROM b%s" % cond                       # nested form: selects the dimension
+                alone = "SELECT f FROM b%s" % cond                     # the same query run on its own
+                outer = "SELECT f FROM a WHERE b IN %%s%s" % rng.choice(["", " GROUP BY a, b", " GROUP BY b, period(4s)"])
+                qs.append({"a": "InLaw", "sub": sub, "sql": alone, "dim": "b", "outer": outer, "mem": rng.random() < 0.7,
+                           "lawId": "i%d" % ii})
+            # FROM (subquery): the outer query over the materialised inner result
+            for fi in range(rng.randint(1, 3)):
+                iby = rng.choice([["a", "b"], ["a"], ["b"]])
+                oby = rng.choice([[x for x in iby if rng.random() < 0.5], iby])
+                m = rng.choice([1, 2, 3])
+                inner = "SELECT f, g FROM a GROUP BY %s, period(2s)" % ", ".join(iby)
+                outer = "SELECT f, g FROM (%s) GROUP BY %s period(%ds)" % (inner, "".join(x + ", " for x in oby) if oby else "_, ", 2 * m)
+                mem = rng.random() < 0.7
+                lid = "s%d" % fi
+                qs += [rawq(inner, mem, lid + "inner"), rawq(outer, mem, lid + "outer")]
+                law[lid] = {"kind": "from", "by": ",".join(sorted(oby)), "P": 2 * m}
+            sc["cmds"][idx:idx] = qs
+            laws[sc["scn"]] = law
+            yield sc, tabs
+
+    def post_judge(V, scenarios, traces):
+        import operator
+        ops = {">": operator.gt, "<": operator.lt, ">=": operator.ge, "=": operator.eq}
+        by_id = {s["scn"]: s for s in scenarios}
+        for scn, lines in traces.items():
+            res = {}
+            for l in lines:
+                if l.get("a") == "GQueryResult" and l["desc"].get("w"):
+                    st["where"] += 1
+                    if l["rows"]:
+                        st["nontrivial"] += 1
+                if l.get("a") == "Other" and "set" in l:
+                    res[l["id"]] = l
+                if l.get("a") == "Other" and l.get("law") == "in":
+                    if l.get("err"):
+                        st["in_skipped"] += 1
+                        continue
+                    st["in"] += 1
+                    key = lambda r: json.dumps({"k": r["k"], "p": r["p"], "v": r["v"]}, sort_keys=True)
+                    # a sub-query row without the dimension yields NULL, which a literal list cannot
+                    # express: rows whose own dimension is missing are left out of the comparison
+                    has = lambda r: (r.get("d") or {}).get("b") is not None
+                    l = dict(l, nested=[r for r in l["nested"] if has(r)], literal=[r for r in l["literal"] if has(r)])
+                    if sorted(map(key, l["nested"])) != sorted(map(key, l["literal"])) or ("errNested" in l) != ("errLiteral" in l):
+                        rp = common.save_replay(pid, scn + "-" + l["lawId"], {"scenario": by_id[scn], "kind": "in-law", "line": l})
+                        V.violation(rp, "%s: `%s` with the sub-query %s returns %d rows, with the literal list %s it returns %d rows"
+                                    % (scn, l["outer"], l["sub"], len(l["nested"]), l["values"], len(l["literal"])))
+                    elif l["nested"]:
+                        st["nontrivial"] += 1
+            for lid, lw in laws.get(scn, {}).items():
+                if lw["kind"] == "having":
+                    base, withh = res.get(lid + "base"), res.get(lid + "with")
+                    if not base or not withh or "err" in base or "err" in withh:
+                        continue
+                    st["having"] += 1
+                    name = lw["field"]
+                    # rows of the HAVING-free query (its own select list has a value) that satisfy the predicate
+                    want = [r for r in base["raw"] if ops[lw["op"]](r["v"].get(name, 0), lw["thr"])
+                            and any(r["v"].get(f, 0) != 0 for f in lw["sel"])]
+                    proj = lambda r: json.dumps({"k": r["k"], "p": r["p"], "v": {f: r["v"].get(f, 0) for f in lw["sel"]}}, sort_keys=True)
+                    got = withh["raw"]
+                    extra_cols = [c for r in got for c in r["v"] if c not in lw["sel"]]
+                    if sorted(map(proj, want)) != sorted(map(proj, got)) or extra_cols:
+                        rp = common.save_replay(pid, scn + "-" + lid, {"scenario": by_id[scn], "kind": "having-law", "base": base, "with": withh, "law": lw})
+                        V.violation(rp, "%s: `%s` returns %d rows%s; the rows of `%s` satisfying the predicate are %d"
+                                    % (scn, withh["sql"], len(got), " and exposes %s" % sorted(set(extra_cols)) if extra_cols else "", base["sql"], len(want)))
+                    elif want and len(want) < len(base["raw"]):
+                        st["nontrivial"] += 1
+                elif lw["kind"] == "from":
+                    inner, outer = res.get(lid + "inner"), res.get(lid + "outer")
+                    if not inner or not outer or "err" in inner or "err" in outer:
+                        continue
+                    st["from"] += 1
+                    why = regroup_ok(inner["raw"], outer["raw"], lw["by"], lw["P"], ["f", "g"])
+                    if why:
+                        rp = common.save_replay(pid, scn + "-" + lid, {"scenario": by_id[scn], "kind": "from-law", "inner": inner, "outer": outer, "law": lw})
+                        V.violation(rp, "%s: `%s` is not the regrouping of its materialised sub-query: %s" % (scn, outer["sql"], why))
+                    elif outer["raw"]:
+                        st["nontrivial"] += 1
+
+    def extra_cov(scenarios, traces):
+        return {"where_queries_bound_to_spec": st["where"], "having_laws": st["having"], "in_subquery_laws": st["in"],
+                "in_subquery_laws_skipped_empty": st["in_skipped"], "from_subquery_laws": st["from"],
+                "laws_with_rows_on_both_sides": st["nontrivial"]}
+
+    return store_check(args, pid, mc_jobs, gen, ["AtMostOnce"], True,
+                       ["WHERE: the rows of SELECT ... WHERE p are bound to the specification's view restricted to the keys whose "
+                        "dimensions satisfy p (predicate truth computed by the generator, independently of goexpr)",
+                        "HAVING / IN-sub-query / FROM-sub-query: differential laws between two executions on the same quiescent data",
+                        "predicates over the dimensions the table groups by; nil and missing dimensions, mixed types included"]
+                       + BASE_ASSUMPTIONS[:1], end_oracle=False, extra_cov=extra_cov, post_judge=post_judge,
+                       observation_lines=("QueryResult", "GQueryResult"))
+
+
 def tables_from_defs(sc):
     """Rebuild Table objects of a stored scenario (replay)."""
     out = []
     for d in sc["tables"]:
-        cand = [t for t in MC_TABLES + C03_TABLES + C01_TABLES + C14_TABLES + C14_TABLES2 + C15_TABLES + C18_TABLES + Q_TABLES if t.define() == d]
+        cand = [t for t in MC_TABLES + C03_TABLES + C01_TABLES + C14_TABLES + C14_TABLES2 + C15_TABLES + C18_TABLES + Q_TABLES + C08_TABLES if t.define() == d]
         if cand:
             out.append(cand[0])
         else:
@@ -1326,4 +1519,4 @@ def tables_from_defs(sc):
     return out
 
 
-CHECKS = {"C06": check_C06, "C07": check_C07, "C17": check_C17, "C04": check_C04, "C18": check_C18, "C15": check_C15, "C14": check_C14, "C01": check_C01, "C02": check_C02, "C03": check_C03}
+CHECKS = {"C08": check_C08, "C06": check_C06, "C07": check_C07, "C17": check_C17, "C04": check_C04, "C18": check_C18, "C15": check_C15, "C14": check_C14, "C01": check_C01, "C02": check_C02, "C03": check_C03}
